@@ -193,6 +193,14 @@ def build_cases(rng, sizes, full: bool) -> typing.Tuple[Tree, typing.List[Case]]
                      (b"cut.html", b"<html><title>half a multi-byte character \xe2\x82")):
         t.file(b"web/" + nm, data)
         cases.append(Case(b"web/" + nm, data, "text/html", data, ("content:html-not-utf8", "name:plain", "ext:." + nm.rsplit(b".", 1)[-1].decode())))
+    # files that carry an archive's name (and beginning) without being one: a download cut short, an empty file,
+    # a text file, an archive with junk appended after its end record -- still regular files, to be delivered as such
+    whole = Tree().file("a.txt", "a\n" * 400).file("d/b.bin", trees.gen_content(rng, 6000, "binary")).to_zip()
+    for nm, data in ((b"backup.zip", whole[:len(whole) * 6 // 10]), (b"head-only.zip", whole[:30]), (b"empty.zip", b""),
+                     (b"text.zip", b"PK is how this sentence starts\n"), (b"end-record-only.zip", whole[-22:]),
+                     (b"tail-cut.zip", whole[:-5])):
+        t.file(b"broken/" + nm, data)
+        cases.append(Case(b"broken/" + nm, data, mimeref.mime_for_ext(".zip"), data, ("content:not-an-archive", "name:plain", "ext:.zip")))
     # HTML documents (title handler) and encoded files
     for j, title in enumerate(["T", None, "a <b> & c"]):
         data = trees.html_doc(title) + trees.gen_content(rng, 5000 * j, "text")
